@@ -4,7 +4,7 @@ import re
 from collections import defaultdict
 from lib.facts import CallGraph, find, walk, is_node, path_of, render, render_stmt, render_pat, fns_in_type, strip_refs
 from lib.mirq import Slice
-from lib.synflow import Inliner, GuardWalk, DEAD, origin, resolve_value, value_closure, const_table, int_value, bool_value, called, let_defs, binders, is_inlined, tail_of
+from lib.synflow import Inliner, GuardWalk, DEAD, origin, resolve_value, value_closure, const_table, int_value, bool_value, called, let_defs, binders, is_inlined, tail_of, discriminations
 from lib.synflow import narrow as narrow_
 
 TECHNIQUE = ("per-arm call classification of section_element()/paragraph_element() against a partition of the SectionElement variants (executing / inline "
@@ -194,17 +194,22 @@ def _run(F, rep, tier):
         pe_body = inl.view(pe[0])
         pe_defs = let_defs(pe_body)
         n_pm = 0
-        for mm in find(pe_body, "match"):
-            if not is_param(mm[1], pelem, pe_defs):
+        # a case distinction on the element: `match el {..}`, `let Eval(x) = el else { .. };`, `if let Eval(x) = el {..} else {..}` are the same thing
+        for scrut, arms_ in discriminations(pe_body):
+            if not is_param(scrut, pelem, pe_defs):
                 continue
             n_pm += 1
-            for arm in mm[2]:
+            for arm in arms_:
                 p = arm[0]
                 if p[0] in ("pts", "ppath") and p[1].startswith("ParagraphElement::"):
                     v = p[1].split("::")[-1]
                     ev = sorted(c for c in called(arm[2]) if EVAL_FNS.match(c))
                     if "Eval" not in v:
                         rep.check(not ev, "C10-R1", "paragraph:%s" % v, "ParagraphElement::%s (prose) evaluates through %s" % (v, ev), "expanded line %d" % arm[3])
+                elif p[0] in ("pwild", "pident"):
+                    # the catch-all for every element that is not an inline eval (`_ => ..`, the `else` of a `let .. else`)
+                    ev = sorted(c for c in called(arm[2]) if EVAL_FNS.match(c))
+                    rep.check(not ev, "C10-R1", "paragraph:other", "the catch-all of paragraph_element (prose elements) evaluates through %s" % ev)
         rep.floor("C10-R1", "paragraph_element matches on its ParagraphElement parameter", n_pm, 1)
     # R2/R3 fenced arm. Arms with a match guard (`FencedMechCode(b) if b.config.disabled => ..`) are walked in order, each one under what the failed guards of
     # the earlier ones say; arms after the first guard-less one are unreachable.
@@ -390,11 +395,21 @@ def _run(F, rep, tier):
                 rep.check(q is False or q is DEAD, "C10-R4", "err-return-behind-isolation", MSG4)
                 return
             if e[0] == "path" and "::" not in e[1] and depth < 4 and (w.defs.get(e[1]) is not None or e[1] in exit_vars):
-                # a named local: its initialiser is the value (what is assigned to it later is seen at the assignment)
+                # a named local: its initialiser is the value (what is assigned to it later is seen at the assignment). Only its Err case matters, and the
+                # walker knows under which state of the flag the local can still hold an Err here (`match r { Err(e) if flag => .., other => other }`,
+                # `if let Err(e) = &r { if flag { return Ok(..) } }  r`)
                 if w.defs.get(e[1]) is not None:
-                    for leaf, q2 in w.leaves(w.defs[e[1]], q):
-                        classify(leaf, q2, w, depth + 1)
+                    classify_all(w.exits(w.defs[e[1]], narrow_(q, w.errq.get(e[1], set()))), w, depth + 1)
                 return
+            if e[0] == "mcall" and e[2] in RESULT_COMBINATORS and depth < 4:
+                # `r.or_else(|e| ..)` consumes the Err of r: the closure's value is what leaves; map / map_err / and_then / inspect.. keep the Err of r
+                if e[2] != "or_else":
+                    classify_all(w.exits(e[1], q), w, depth + 1)
+                if e[2] in ("or_else", "and_then") and e[4] and is_node(e[4][0]) and e[4][0][0] == "closure":
+                    classify_all(w.exits(e[4][0][2], q), w, depth + 1)
+                    return
+                if e[2] not in ("or_else", "and_then"):
+                    return
             if q is False or q is DEAD or e[0] == "macro":
                 return          # isolation is off here: whatever Result this is may leave
             # a Result of unknown content leaves the function while isolation may be on
@@ -406,6 +421,17 @@ def _run(F, rep, tier):
             else:
                 rep.check(False, "C10-R4", "err-return-behind-isolation", MSG4 + " (returns `%s`)" % render(e)[:60])
 
+        RESULT_COMBINATORS = {"or_else", "and_then", "map", "map_err", "inspect", "inspect_err"}
+
+        def classify_all(exits, w, depth=0):
+            for kind, leaf, q2 in exits:
+                if kind == "try":
+                    # a `?` whose Err becomes the value that leaves (inside a closure / helper whose result is returned or matched and handed on)
+                    st4["err"] += 1
+                    rep.check(q2 is False or q2 is DEAD, "C10-R4", "err-return-behind-isolation", MSG4 + " (`%s`)" % render(leaf)[:60] if not (q2 is False or q2 is DEAD) else MSG4)
+                else:
+                    classify(leaf, q2, w, depth)
+
         # a returned accumulator (`let mut result = Ok(..); .. result = helper(err, flag); break; .. result`): every value assigned to it is an exit value
         exit_vars = set()
         GuardWalk(env={n: "Q" for n in iso}, consts=consts, on=lambda k, n, q, w: exit_vars.add(var_of(n)) if k == "exit" and var_of(n) and "::" not in var_of(n) else None).walk_fn(ef_body)
@@ -414,8 +440,7 @@ def _run(F, rep, tier):
             if kind == "exit":
                 classify(node, q, w)
             elif kind == "assign" and var_of(node[1]) in exit_vars:
-                for leaf, q2 in w.leaves(node[2], q):
-                    classify(leaf, q2, w)
+                classify_all(w.exits(node[2], q), w)
             elif kind == "try" and w.at_exit and q is not False and q is not DEAD:
                 st4["try"].append(render(node)[:60])
             elif kind == "call" and path_of(node[1]) and is_eval(path_of(node[1]).split("::")[-1]):
